@@ -54,6 +54,10 @@ def c01(run):
     run.mc("MC_AddressCodec")
     trace, _ = run.exec("C01")
     run.validate("Trace_AddressCodec", trace)
+    # public-key addresses as objects: every format reached through SetFormat on one object (String / EncodeAddress /
+    # ScriptAddress after each change), SLP <-> cash conversion (the AddressExtras part of the specification)
+    trace2, _ = run.exec("X01")
+    run.validate("Trace_AddressExtras", trace2)
     return finish(run, assumptions=ADDR_ASSUME)
 
 
